@@ -206,7 +206,7 @@ class C26(Check):
             add("flipped", good, muts=[["put", rng.randrange(flen), [rng.randrange(256)]] for _ in range(k)])
         return gs
 
-    def run_case(self, c, tmp):
+    def run_case(self, c, tmp, patience=20):
         path = os.path.join(tmp, c["case"] + ".elf")
         if c["desc"] is not None:
             d = dict(c["desc"], path=path)
@@ -237,7 +237,7 @@ class C26(Check):
             argv = [MLT, path]
         else:
             argv = [MLT, path]
-        outcome, code, tail = run_pty(argv)
+        outcome, code, tail = run_pty(argv, timeout=patience)
         try:
             os.unlink(path)
         except OSError:
@@ -260,7 +260,9 @@ class C26(Check):
                 if e["outcome"] == "timeout":
                     tmp = tempfile.mkdtemp(prefix="verif-c26-")
                     try:
-                        evs[i] = self.run_case(cases[i], tmp)
+                        # e.g. a corrupted memory size just below the loader's 1 GiB limit: start-up allocates and
+                        # copies it (20 s and 2 GB measured on a loaded machine) but does terminate
+                        evs[i] = self.run_case(cases[i], tmp, patience=300)
                     finally:
                         shutil.rmtree(tmp, ignore_errors=True)
                     if evs[i]["outcome"] == "timeout":
